@@ -69,11 +69,23 @@ Record prims := mkPrims {
   p_fin_fuel : state -> nat;
   p_has_listeners : M;            (* truth value of registry.has_listeners *)
   p_notify_newresponse : M;       (* registry.notify(NewResponse(request, response)) *)
-  p_has_extensions : M;          (* truth value of `self.request_extensions is not None` *)
+  p_has_extensions : M;           (* truth value of `self.request_extensions is not None` *)
   p_setup : M;                    (* request factory / request extensions / attribute glue before the scope *)
   p_push : M;                     (* manager.push({'registry': registry, 'request': request}) *)
   p_pop : M;                      (* manager.pop() *)
   p_handler : M;                  (* excview_tween: handler(request), the rest of the tween chain *)
-  p_invoke_exception_view : N -> M;   (* _error_handler: request.invoke_exception_view(exc_info) for exception k *)
   p_is_notfound : N -> bool;      (* isinstance(e, HTTPNotFound) (PredicateMismatch is a subclass) *)
+  (* Router.handle_request *)
+  p_notify_newrequest : M;        (* notify(NewRequest(request)) *)
+  p_has_mapper : M;               (* truth value of `self.routes_mapper is not None` *)
+  p_routes_mapper : M;            (* routes_mapper(request): info['route'], None (= 0) when no route matched *)
+  p_root_factory : M;             (* self.root_factory(request) *)
+  p_route_factory : M;            (* (route.factory or self.root_factory)(request) *)
+  p_notify_beforetraversal : M;
+  p_traverser : M;                (* traverser(request) *)
+  p_notify_contextfound : M;
+  p_call_view : M;                (* _call_view(registry, request, context, ..): the response, None = 0 *)
+  p_exc_notfound : N;             (* the exception HTTPNotFound(..) *)
+  (* ViewMethodsMixin.invoke_exception_view *)
+  p_call_exception_view : N -> M; (* _call_view(.., view_classifier=IExceptionViewClassifier, ..) for exception k *)
 }.
